@@ -33,6 +33,15 @@ class FeatureProduction(Production):
         """The merged features of the production rules"""
         return self._features
 
+    def __eq__(self, other):
+        # Same head and body are not enough: the features make the rule
+        if not isinstance(other, FeatureProduction):
+            return False
+        return super().__eq__(other) and repr(self) == repr(other)
+
+    def __hash__(self):
+        return super().__hash__()
+
     def __repr__(self):
         res = [self.head.to_text()]
         cond_head = str(self._features.get_feature_by_path(["head"]))
